@@ -1,6 +1,7 @@
 package icc
 
 import (
+	"bytes"
 	"fmt"
 	"github.com/mandykoh/prism/meta/binary"
 	"io"
@@ -241,13 +242,18 @@ func (pr *ProfileReader) readTagTable(tagTable *TagTable) error {
 	}
 
 	tagDataOffset := tagTableOffset + 4 + (tagCount * 12)
-	tagData := make([]byte, endOfTagData-tagDataOffset)
-	bytesRead, err := io.ReadFull(pr.reader, tagData)
-	if err == io.ErrUnexpectedEOF {
-		return fmt.Errorf("expected %d bytes of tag data but only got %d", len(tagData), bytesRead)
-	}
-	if err != nil {
-		return err
+	var tagData []byte
+	if endOfTagData > tagDataOffset {
+		tagDataLen := endOfTagData - tagDataOffset
+		tagDataBuf := &bytes.Buffer{}
+		bytesRead, err := io.CopyN(tagDataBuf, pr.reader, int64(tagDataLen))
+		if err == io.EOF {
+			return fmt.Errorf("expected %d bytes of tag data but only got %d", tagDataLen, bytesRead)
+		}
+		if err != nil {
+			return err
+		}
+		tagData = tagDataBuf.Bytes()
 	}
 
 	for sig, entry := range tagIndex {
